@@ -281,7 +281,7 @@ distinct = distinct (segment count, zone density, seed); oracle = structure equa
         crate::ev::Tier::Quick => {
             let mut v = vec![0usize, 1, 2, 3, 5, 8, 16, 255];
             let mut rng = Rng::derive(seed, 13, 0);
-            for _ in 0..200 {
+            for _ in 0..500 {
                 v.push(rng.urange(0, 12));
             }
             v.extend([40usize, 100, 200, 254]);
